@@ -20,10 +20,10 @@ NOCONST = ('noconst',)
 
 class V:
   """Abstract value: domain payload + facets used by the engine itself."""
-  __slots__ = ('d', 'c', 'ty', 'obj', 'fn', 'elts', 'kv', 'origin')
+  __slots__ = ('d', 'c', 'ty', 'obj', 'fn', 'elts', 'kv', 'origin', 'nc')
 
   def __init__(self, d=None, c=NOCONST, ty=None, obj=None, fn=None,
-               elts=None, kv=None, origin=None):
+               elts=None, kv=None, origin=None, nc=frozenset()):
     self.d = d          # domain payload
     self.c = c          # NOCONST | frozenset of possible python constants
     self.ty = ty        # None | 'ndarray' | 'str' | 'none' | ('not', tags)
@@ -33,6 +33,7 @@ class V:
     self.elts = elts    # tuple of V for tuple / list literals
     self.kv = kv        # dict str->V for dict literals with constant keys
     self.origin = origin  # free-form provenance (name of param, ...)
+    self.nc = nc        # constants the value is known NOT to equal
 
   def const(self):
     """The single known constant, else NOCONST."""
@@ -42,7 +43,7 @@ class V:
 
   def with_(self, **kw):
     n = V(self.d, self.c, self.ty, self.obj, self.fn, self.elts, self.kv,
-          self.origin)
+          self.origin, self.nc)
     for k, v in kw.items():
       setattr(n, k, v)
     return n
@@ -274,6 +275,22 @@ class Domain:
     return a
 
 
+# numpy constructors: the result is an ndarray (never None, never a string)
+ARRAY_MAKERS = frozenset(canon('numpy.' + n) for n in (
+    'zeros', 'ones', 'empty', 'full', 'eye', 'identity', 'zeros_like',
+    'ones_like', 'empty_like', 'full_like', 'arange', 'linspace', 'vstack',
+    'hstack', 'concatenate', 'stack', 'column_stack', 'outer', 'diag',
+    'atleast_2d', 'atleast_1d', 'asarray', 'array', 'asanyarray'))
+
+
+def _hashable(k):
+  try:
+    hash(k)
+    return True
+  except TypeError:
+    return False
+
+
 def is_heap(k):
   return isinstance(k, tuple) and not k[0].startswith(('@', '?'))
 
@@ -323,8 +340,15 @@ class Engine:
     obj = a.obj if (a.obj is not None and b.obj is not None and
                     a.obj.oid == b.obj.oid) else None
     fn = a.fn if a.fn == b.fn else None
-    return V(d, _join_c(a.c, b.c), _join_ty(a.ty, b.ty), obj, fn, elts, kv,
-             a.origin if a.origin == b.origin else None)
+    jc = _join_c(a.c, b.c)
+    # x != k survives a join when each side either knows it or has a constant
+    # set that excludes k
+    nc = frozenset(
+        k for k in (a.nc | b.nc)
+        if (k in a.nc or (a.c is not NOCONST and k not in a.c)) and
+        (k in b.nc or (b.c is not NOCONST and k not in b.c)))
+    return V(d, jc, _join_ty(a.ty, b.ty), obj, fn, elts, kv,
+             a.origin if a.origin == b.origin else None, nc)
 
   def join_states(self, states):
     states = [s for s in states if s is not None]
@@ -386,7 +410,7 @@ class Engine:
         if v is not w:
           return False
         continue
-      if v.d != w.d or v.c != w.c or v.ty != w.ty:
+      if v.d != w.d or v.c != w.c or v.ty != w.ty or v.nc != w.nc:
         return False
     return True
 
@@ -761,6 +785,18 @@ class Engine:
         normal_exit = []
     else:
       normal_exit = exits_iter
+      if not self.dom.loop_may_skip(stmt, None, st):
+        # the body runs at least once: the loop is left from a state reached
+        # through the body, never from the entry state alone
+        back = bf.normal + bf.continues
+        normal_exit = []
+        if back:
+          sb = self.join_states([x.copy() for x in back])
+          val = self.eval(stmt.test, sb, func)
+          if self.truth(val) is not True:
+            s3 = sb.copy()
+            if self.refine(stmt.test, False, s3, func):
+              normal_exit = [s3]
     if stmt.orelse and normal_exit:
       ef = self.exec_block(stmt.orelse, self._merge(normal_exit), func)
       normal_exit = ef.normal
@@ -1548,7 +1584,11 @@ class Engine:
           cur = self.load_attr(args[0], name, e, st, func)
           return self.join_v(args[2], cur)
       self.dom.on_call('ext', d, full, kwargs, e, st)
-      return self._wrap(self.dom.ext_call(d, full, kwargs, e, st, self))
+      r = self._wrap(self.dom.ext_call(d, full, kwargs, e, st, self))
+      if d in ARRAY_MAKERS and r.ty is None and r.c is NOCONST and \
+              r.elts is None and r.obj is None and r.fn is None:
+        r = r.with_(ty='ndarray')
+      return r
     self.calls_unresolved.append((func, e))
     return V(self.dom.unknown_call(e, st))
 
@@ -1785,6 +1825,19 @@ class Engine:
         return self._refine(undecided[0], taken, st, func)
       if not undecided:
         return False
+      if conj and not taken and len(test.values) == 2:
+        # not (isinstance(x, str) and x == 'k'): the equality implies the
+        # type test, so x != 'k' holds either way
+        for a_, b_ in (test.values, test.values[::-1]):
+          if isinstance(a_, ast.Call) and isinstance(a_.func, ast.Name) and \
+                  a_.func.id == 'isinstance' and len(a_.args) == 2 and \
+                  isinstance(a_.args[1], ast.Name) and \
+                  a_.args[1].id == 'str' and isinstance(b_, ast.Compare) and \
+                  len(b_.ops) == 1 and isinstance(b_.ops[0], ast.Eq) and \
+                  ast.dump(b_.left) == ast.dump(a_.args[0]) and \
+                  isinstance(b_.comparators[0], ast.Constant) and \
+                  isinstance(b_.comparators[0].value, str):
+            return self._refine(b_, False, st, func)
       return True
     if isinstance(test, ast.Compare) and len(test.ops) == 1:
       op = test.ops[0]
@@ -1819,6 +1872,8 @@ class Engine:
           if pos:
             if lv.c is not NOCONST and k not in lv.c:
               return False
+            if _hashable(k) and k in lv.nc:
+              return False
             if lv.ty == 'ndarray' and isinstance(k, str):
               # array == 'str': elementwise comparison in a truth test
               self.dom.array_str_compare(key, k, test, st)
@@ -1832,6 +1887,8 @@ class Engine:
               if not nc:
                 return False
               st.vars[key] = lv.with_(c=nc)
+            elif _hashable(k):
+              st.vars[key] = lv.with_(nc=lv.nc | {k})
           return True
         if isinstance(op, (ast.In, ast.NotIn)) and rv.elts is not None and \
                 all(x.const() is not NOCONST for x in rv.elts):
@@ -1844,7 +1901,9 @@ class Engine:
             else:
               if lv.ty == 'ndarray':
                 return True
-              nc = members
+              nc = members - lv.nc
+              if not nc:
+                return False
             ty = 'str' if all(isinstance(x, str) for x in nc) else lv.ty
             st.vars[key] = lv.with_(c=nc, ty=ty)
           else:
